@@ -216,3 +216,7 @@ def strategy(tier):
 
 def n_random(tier):
     return 4800 if tier == "quick" else 80000
+
+
+def files(case):
+    return {"main.ms": ms.program([("print", S("@start"))] + case["stmts"] + [("print", S("@end"))])[0]}
